@@ -315,6 +315,17 @@ func (ex *Exchange[H]) GetRangeByHeight(
 		),
 	)
 	defer span.End()
+	if to <= from.Height()+1 {
+		// nothing to request: an empty or inverted range would otherwise never complete
+		// (or underflow the amount of headers to request)
+		err := fmt.Errorf(
+			"header/p2p: invalid range: `to`(%d) must be greater than from.Height()+1(%d)",
+			to,
+			from.Height()+1,
+		)
+		span.SetStatus(codes.Error, err.Error())
+		return nil, err
+	}
 	session := newSession[H](
 		ex.ctx,
 		ex.host,
